@@ -57,7 +57,22 @@ pub fn mk_dt_route(instant: i128, route: u8) -> DateTime {
     let day = instant.div_euclid(tl::DAY_NS);
     let tod = instant.rem_euclid(tl::DAY_NS);
     let fits = |i: i128| tl::representable(i);
-    match route % 10 {
+    match route % 12 {
+        // one day plus a fraction added to a value within that fraction of the end of its day (two
+        // carries); only for targets in the first second of a day
+        10 if tod < 999_999_000 && fits(instant - tl::DAY_NS - tod - 1) => mk_dt(instant - tl::DAY_NS - tod - 1) + std::time::Duration::new(86_400, (tod + 1) as u32),
+        // the value written in another zone and converted back (as_offset moves the instant by minus
+        // the offset): for a target at midnight and a zone west of Greenwich the local time plus
+        // the offset is exactly 24:00
+        11 => {
+            let off: i32 = [-18_000, -3_600, -1, -86_399, 3_600, 19_800, -28_378, 1][((instant as u64 >> 3) % 8) as usize];
+            let local = instant + off as i128 * tl::NS;
+            if fits(local) && fits(instant - tl::DAY_NS) && fits(instant + tl::DAY_NS) {
+                mk_dt(local).as_offset(Offset::Fixed(off)).set_offset(Offset::Fixed(0))
+            } else {
+                mk_dt(instant)
+            }
+        }
         // conversions: a Date turned into a DateTime is that day's midnight at offset 0
         8 => DateTime::from(mk_date(day as i64)).set_time(Time::from_nanos(tod as u64).unwrap()),
         9 => DateTime::from(&mk_date(day as i64)) + Time::from_nanos(tod as u64).unwrap(),
@@ -83,8 +98,8 @@ pub fn mk_dt_route(instant: i128, route: u8) -> DateTime {
 
 /// `mk_dt_off` through a route
 pub fn mk_dt_off_route(instant: i128, offset: i32, route: u8) -> DateTime {
-    if route % 20 < 10 {
-        mk_dt_route(instant, route % 20).set_offset(Offset::Fixed(offset))
+    if route % 24 < 12 {
+        mk_dt_route(instant, route % 24).set_offset(Offset::Fixed(offset))
     } else {
         mk_dt_off(instant, offset)
     }
@@ -97,8 +112,8 @@ pub fn mk_dt_off_route(instant: i128, offset: i32, route: u8) -> DateTime {
 /// set of *representations* the public API can produce for one instant.
 pub fn mk_dt_off_any(instant: i128, offset: i32) -> DateTime {
     let h = (instant as u64) ^ ((instant >> 37) as u64) ^ (offset as u32 as u64).wrapping_mul(0x9E37_79B9);
-    let route = (h % 20) as u8;
-    if route >= 10 {
+    let route = (h % 24) as u8;
+    if route >= 12 {
         return mk_dt_off(instant, offset);
     }
     let built = std::panic::catch_unwind(|| {
